@@ -10,8 +10,8 @@ what joins them:
 * `spell : Token → Chars` — the canonical source spelling of a token: the literal text for
   identifiers, integers, operators, punctuation and keywords; for a string literal the value
   between double quotes with the escapes of `spellChar`;
-* `spellWith ts gaps` — the spellings separated by the given gaps (a gap = blanks, or blanks, one
-  block comment, blanks), by a single space where no gap is given; `spellAll ts` = single spaces
+* `spellWith ts gaps` — the spellings separated by the given gaps (a gap = blanks, then any
+  number of block comments, each followed by blanks), by a single space where no gap is given; `spellAll ts` = single spaces
   everywhere; `renderSrc e = spellAll (renderTop e)` — the source text of an expression tree;
 * `tokOK` — the decidable well-formedness of a token (what the lexer can produce from a spelling);
   `exprOK` — the leaves of a tree are well-formed;
@@ -61,21 +61,29 @@ def spell (t : Token) : Chars :=
 
 /-! ### gaps and texts -/
 
-/-- what may stand between two tokens: a run of blanks, or blanks, one block comment, blanks -/
-inductive Gap where
-  | blanks (ws : Chars)
-  | comment (ws₁ body ws₂ : Chars)
+/-- what may stand between two tokens — everything the lexer skips inside one line: a run of
+    blanks (`lead`), then any number of block comments, each followed by a run of blanks
+    (`comments`: body, blanks after the comment).  Every sequence of blank runs and block
+    comments that begins with a blank has this form.  (Before the repair of
+    `C20-adjacent-comments` a gap held at most ONE comment.) -/
+structure Gap where
+  lead : Chars
+  comments : List (Chars × Chars)
   deriving DecidableEq, Repr
 
-def Gap.text : Gap → Chars
-  | .blanks ws => ws
-  | .comment ws₁ body ws₂ => ws₁ ++ ([47, 42] ++ body ++ [42, 47] ++ ws₂)
+/-- blanks only -/
+def Gap.blanks (ws : Chars) : Gap := ⟨ws, []⟩
 
-/-- a gap begins with at least one space or tab; a comment body satisfies `okBody` (no `*/`
-    inside, not beginning with `/`, no NUL: the guard of `lex_block_comment_invariant_partial`) -/
-def Gap.ok : Gap → Bool
-  | .blanks ws => !ws.isEmpty && ws.all isBlank
-  | .comment ws₁ body ws₂ => !ws₁.isEmpty && ws₁.all isBlank && okBody body && ws₂.all isBlank
+/-- blanks, one block comment, blanks -/
+def Gap.comment (ws₁ body ws₂ : Chars) : Gap := ⟨ws₁, [(body, ws₂)]⟩
+
+def Gap.text (g : Gap) : Chars := g.lead ++ commentRun g.comments
+
+/-- a gap begins with at least one space or tab (it delimits the token before it); every
+    comment body satisfies `properBody` (no `*/` inside, no NUL: the hypothesis of
+    `lex_block_comment_invariant`), every separator is made of spaces and tabs -/
+def Gap.ok (g : Gap) : Bool :=
+  !g.lead.isEmpty && g.lead.all isBlank && commentRunOk g.comments
 
 /-- the spellings of `ts` separated by the gaps `gs` in turn (a single space once they run out);
     nothing before the first token or after the last -/
